@@ -54,10 +54,13 @@ theorem roundDec_idem (k : Nat) (x : Rat) : roundDec k (roundDec k x) = roundDec
   unfold roundDec
   rw [div_mul_cancel₀ _ hp, roundEven_int]
 
-/-- the unit factors of every writer/reader pair cancel exactly: positions, velocities and box (nm ↔ Å) and forces
-(kJ/mol/nm ↔ kcal/mol/Å) -/
-theorem unit_factors_cancel : nm2ang * ang2nm = 1 ∧ (kj2kcal / nm2ang) * (kcal2kj / ang2nm) = 1 := by
-  constructor <;> decide +kernel
+/-- the unit factors of every writer/reader pair, as read from the sources, cancel exactly: positions, velocities, box
+(nm ↔ Å) and forces (kJ/mol/nm ↔ kcal/mol/Å) of the LAMMPS dump pair, the xyz pair and the DL_POLY pair -/
+theorem unit_factors_cancel :
+    Gen.Formats.dumpPosW * Gen.Formats.dumpPosR = 1 ∧ Gen.Formats.dumpVelW * Gen.Formats.dumpVelR = 1 ∧
+    Gen.Formats.dumpFrcW * Gen.Formats.dumpFrcR = 1 ∧ Gen.Formats.dumpBoxW * Gen.Formats.dumpBoxR = 1 ∧
+    Gen.Formats.xyzW * Gen.Formats.xyzR = 1 ∧ Gen.Formats.dlpolyW * Gen.Formats.dlpolyR = 1 := by
+  refine ⟨?_, ?_, ?_, ?_, ?_, ?_⟩ <;> decide +kernel
 
 /-- hence a field round trip deviates from the original by at most half a unit of the last printed digit, converted back -/
 theorem field_roundtrip_dec (w r : Rat) (k : Nat) (x : Rat) (hwr : w * r = 1) :
